@@ -11,11 +11,12 @@ from sim import run_scenario
 from .base import Result, V
 from . import simcommon as SC
 
-MODULES = ["TickitModel.Props.C01", "TickitModel.Props.C01Live", "TickitModel.Props.C01NestedAny"]
+MODULES = ["TickitModel.Props.C01", "TickitModel.Props.C01Live", "TickitModel.Props.C01NestedAny", 'TickitModel.Props.C01NestedInter']
 THEOREMS = ["gate_inv", "pending_iff_flag", "within_extent", "update_after_upstreams", "dispatch_at_most_once",
             "resolved_iff_answered", "init_ok", "step_ok", "progress", "step_measure", "finished_iff",
             "tick_can_complete", "every_step_makes_progress",
-            "any_order_update_at_most_once", "any_order_updates_le", "any_order_level_c01", "any_order_update_order", "resolved_wire_feeds", "any_order_update_after_resolved_sources"]
+            "any_order_update_at_most_once", "any_order_updates_le", "any_order_level_c01", "any_order_update_order", "resolved_wire_feeds", "any_order_update_after_resolved_sources",
+            'interleaved_updates_le', 'interleaved_update_order', 'interleaved_update_after_resolved_sources', 'interleaved_update_at_most_once']
 ANCHORS = ["src/tickit/core/management/ticker.py", "src/tickit/core/management/event_router.py",
            "src/tickit/core/management/schedulers/base.py", "src/tickit/core/management/schedulers/nested.py"]
 TECHNIQUE = "Lean 4 theorems (invariant over every reachable state of the ticker's transition system: gate, dispatch-once, progress on acyclic wirings - all wirings, root sets and answer orders) + trace validation of every real Ticker (directly driven with all answer orders, and inside whole simulations under delaying buses) against the model"
@@ -30,7 +31,7 @@ LEVEL_TEXT = ("Full-strength theorems over the ticker model, for every wiring, t
               "twice in a tick (any_order_update_at_most_once), every level's ticker trace satisfies the per-level clauses at every depth (any_order_level_c01), and in the "
               "global order of updates a device is updated only after every device that feeds it through the RESOLVED device-level wiring and is updated in the "
               "same tick (any_order_update_after_resolved_sources) - the composition through system boundaries, proved directly on the relation; the "
-              "consequence clause (no mixture of this-tick and previous-tick values) is C03's any_order_run_refines_flatRun. A device-level monitor through "
+              "consequence clause (no mixture of this-tick and previous-tick values) is C03's any_order_run_refines_flatRun. The same for FULLY INTERLEAVED executions in which inner ticks of sibling systems overlap at every depth (Core/SimInter, Props/C01NestedInter: interleaved_updates_le, interleaved_update_order, interleaved_update_after_resolved_sources - proved directly on the small-step relation, also when the feeding and the fed device live in different system simulations whose inner ticks overlapped). A device-level monitor through "
               "the resolved wiring checks the same on every real run.")
 LEVEL_NOTE = "Trusts: Lean kernel; hand-written ticker model (tied by the acceptor); asyncio task FIFO; the harness wraps Ticker.__init__/__call__/propagate at run time for observation."
 ASSUMPTIONS = ["components answer only when dispatched to (Input or Skip)", "wirings are acyclic for the progress half"]
